@@ -42,8 +42,12 @@ import itertools
 import json
 import logging
 import os
+import pickle
 import random
-from concurrent.futures import ProcessPoolExecutor
+import subprocess
+import sys
+import threading
+import time
 
 from vlib.core import CheckerError, Ctx, seed
 
@@ -803,7 +807,7 @@ def families(tier):
         fams["E4"] = ([k, xa, y, ("D", "d1", [1], False), ("D", "d2", [1], False), ("D", "d3", [1], False),
                        ("R", "v1", [1], "x", ["num", 1], False)], 2, 4)
         # binary patterns everywhere
-        fams["E5"] = ([k, ("V", "x", 5.0, [1, 2]), ("D", "d1", [2], False), ("R", "v1", [1], "x", [2], False)], 1, 4)
+        fams["E5"] = ([k, ("V", "x", 5.0, [1, 2]), ("D", "d1", [2], False), ("R", "v1", [1], "x", [2], False)], 1, 3)
         # surrogate of arity 1/2 with numeric / named / computed coefficient and two derived quantities
         fams["E6"] = ([k, x, ("D", "d1", [1], False), ("D", "d2", [1], False),
                        ("S", "s", [1, 2], ("so1", "so2"), ("so1",), "x", ["num", "name", 1], False)], 1, 4)
@@ -942,14 +946,59 @@ def _work(job):
         if j < 2:
             samples.append({"family": "R", "decl": decl})
     stats["sim"] = SIMS["n"]
+    stats["cpu_s"] = round(time.process_time(), 1)
     return {"stats": stats, "fails": fails, "samples": samples, "rnd": rnd_hashes, "contract_evals": _CONTRACT["evals"]}
 
 
-def _replay(decl):
-    """Fresh process-independent re-run of one witness; returns the keys that fail."""
+def _replay_many(decls):
+    """Fresh re-run of the witnesses; returns per witness the keys that fail."""
     _quiet()
     install_contract()
-    return sorted({f["key"] for f in check_case(decl, light=False) + check_case(decl, light=True)})
+    return [sorted({f["key"] for f in check_case(d, light=False) + check_case(d, light=True)}) for d in decls]
+
+
+def _in_subprocesses(fn_name, jobs):
+    """Run bounded.C13.<fn_name>(job) for every job, each in its own fresh interpreter, all in parallel.
+
+    Plain subprocesses instead of multiprocessing: no fork of a parent that already holds threads (mxlpy pulls in
+    IPython's history thread) and no re-import of whatever the parent's __main__ happens to be."""
+    env = dict(os.environ)
+    env["PYTHONPATH"] = os.pathsep.join([p for p in sys.path if p])  # same mxlpy tree, same vlib
+    env["PYTHONDONTWRITEBYTECODE"] = "1"
+    # the result travels on the original stdout; everything a library may print goes to stderr instead
+    code = ("import os, sys, pickle; fd = os.dup(1); os.dup2(2, 1); from bounded import C13; "
+            "job = pickle.load(sys.stdin.buffer); out = getattr(C13, sys.argv[1])(job); "
+            "f = os.fdopen(fd, 'wb'); pickle.dump(out, f); f.close()")
+    procs = []
+    for job in jobs:
+        pr = subprocess.Popen([sys.executable, "-W", "ignore", "-c", code, fn_name], stdin=subprocess.PIPE,
+                              stdout=subprocess.PIPE, stderr=subprocess.PIPE, env=env)
+        pr.stdin.write(pickle.dumps(job))
+        pr.stdin.close()
+        procs.append(pr)
+    outs = []
+    readers = []
+    for pr in procs:  # drain stdout/stderr concurrently so that no worker blocks on a full pipe
+        box: dict = {}
+
+        def rd(pr=pr, box=box):
+            box["out"] = pr.stdout.read()
+
+        def rde(pr=pr, box=box):
+            box["err"] = pr.stderr.read()
+
+        ts = [threading.Thread(target=rd), threading.Thread(target=rde)]
+        for t in ts:
+            t.start()
+        readers.append((pr, box, ts))
+    for pr, box, ts in readers:
+        for t in ts:
+            t.join()
+        rc = pr.wait()
+        if rc != 0:
+            raise CheckerError(f"C13 worker failed (exit {rc}): {box.get('err', b'')[-1500:].decode(errors='replace')}")
+        outs.append(pickle.loads(box["out"]))
+    return outs
 
 
 # ---------------------------------------------------------------------------
@@ -958,28 +1007,29 @@ def _replay(decl):
 def run(ctx: Ctx) -> None:
     sd = seed()
     nshards = max(1, min(16, os.cpu_count() or 1))
-    n_random = 16000 if ctx.tier == "quick" else 300000
+    n_random = 16000 if ctx.tier == "quick" else 200000
     jobs = [(ctx.tier, s, nshards, sd, n_random) for s in range(nshards)]
-    with ProcessPoolExecutor(max_workers=nshards) as ex:
-        results = list(ex.map(_work, jobs))
-        merged: dict = {}
-        for r in results:
-            for key, e in r["fails"].items():
-                cur = merged.setdefault(key, {"n": 0, "first": e["first"]})
-                cur["n"] += e["n"]
-                a, b = _canon(e["first"]["decl"]), _canon(cur["first"]["decl"])
-                if (len(a), a) < (len(b), b):
-                    cur["first"] = e["first"]
-        replays = {key: ex.submit(_replay, e["first"]["decl"]) for key, e in sorted(merged.items())}
-        for key, e in sorted(merged.items()):
-            f = e["first"]
-            again = replays[key].result()
-            ctx.fail(key=key, kind="bounded", what=f["what"],
-                     witness={"decl": f["decl"], "legend": LEGEND,
-                              **{k: v for k, v in f["detail"].items() if k in ("state", "time", "redeclared_after_first_evaluation", "coefficient")}},
-                     replayed=key in again,
-                     detail={"failing_cases": e["n"], "replay_keys": again,
-                             **{k: v for k, v in f["detail"].items() if k in ("got", "expected", "derived_parameters", "derived_variables")}})
+    results = _in_subprocesses("_work", jobs)
+    merged: dict = {}
+    for r in results:
+        for key, e in r["fails"].items():
+            cur = merged.setdefault(key, {"n": 0, "first": e["first"]})
+            cur["n"] += e["n"]
+            a, b = _canon(e["first"]["decl"]), _canon(cur["first"]["decl"])
+            if (len(a), a) < (len(b), b):
+                cur["first"] = e["first"]
+    keys = sorted(merged)
+    # every witness is re-run from scratch in a fresh interpreter before it is reported
+    replays = _in_subprocesses("_replay_many", [[merged[k]["first"]["decl"] for k in keys]])[0] if keys else []
+    for key, again in zip(keys, replays):
+        e = merged[key]
+        f = e["first"]
+        ctx.fail(key=key, kind="bounded", what=f["what"],
+                 witness={"decl": f["decl"], "legend": LEGEND,
+                          **{k: v for k, v in f["detail"].items() if k in ("state", "time", "redeclared_after_first_evaluation", "coefficient")}},
+                 replayed=key in again,
+                 detail={"failing_cases": e["n"], "replay_keys": again,
+                         **{k: v for k, v in f["detail"].items() if k in ("got", "expected", "derived_parameters", "derived_variables")}})
 
     cases = sum(r["stats"]["cases"] for r in results)
     nontrivial = sum(r["stats"]["nontrivial"] for r in results)
@@ -999,7 +1049,9 @@ def run(ctx: Ctx) -> None:
     samples = [s for r in results for s in r["samples"]][:3]
     ctx.extra["C13_bounded"] = {"cases_by_family": byfam, "models": models, "models_with_all_declaration_orders": all_orders,
                                 "random_models": len(rnd), "random_duplicates": dup, "short_simulations": sims,
-                                "create_cache_postcondition_evaluations": evals}
+                                "create_cache_postcondition_evaluations": evals,
+                                "worker_cpu_s": {"max": max(r["stats"]["cpu_s"] for r in results),
+                                                 "sum": round(sum(r["stats"]["cpu_s"] for r in results), 1)}}
     ctx.add_bounded(
         name="C13-small-models",
         tool="small-scope enumeration + seeded sampling; independent recursive oracle; deal postcondition on the real Model._create_cache",
